@@ -126,7 +126,7 @@ def classify(r):
 def main():
     tier, seed = suite.tier_seed()
     return suite.run_property(
-        "C11", cases(tier, seed), classify=classify, kani=True, rejection_is_violation=True,
+        "C11", cases(tier, seed), classify=classify, kani=True, rejection_is_violation=True, level="model_checking",
         technique="(a) Kani/CBMC bounded model checking of the literal parsers over ALL digit strings of the stated lengths; (b) SMT-based translation validation of `let x: T = <literal>` programs: the compiled program succeeds iff the quantified witness equals the literal's value",
         functions=["value.rs: UIntValue::{u1,u2,u4,parse_decimal,parse_binary,try_from(&[u8])}, Value::parse_hexadecimal", "num.rs: U256::from_str",
                    "parse.rs: literal token handling (underscore and prefix stripping); minimal.pest: dec_literal/bin_literal/hex_literal (through the E1 programs)",
